@@ -2,6 +2,7 @@ package main
 
 import (
 	"fmt"
+	"go/token"
 	"strings"
 
 	"golang.org/x/tools/go/ssa"
@@ -63,6 +64,9 @@ func checkAccessorShape(p *Prog, r *Report, key, what string, so StoreOp, nOpsIn
 			t := o.Of(ret.Results[0])
 			okZero := t.Op == "lit" && len(t.Args) == 0
 			okVal := t.Op == "outparam" && strings.Contains(t.Name, "Unmarshal")
+			if !okZero && !okVal && zeroOrUnmarshalled(p, fn, ret.Results[0], in) {
+				okVal = true // `var v T; if bz != nil { Unmarshal(bz, &v) }; return v`: the zero value or the decoded entry, in one return
+			}
 			if !okZero && !okVal {
 				r.Fail(key, rule, p.Pos(ret.Pos()), fmt.Sprintf("%s returns %v, not the value unmarshalled from the store (or the zero value for a missing key)", FuncName(fn), t))
 				return
@@ -84,4 +88,67 @@ func checkAccessorShape(p *Prog, r *Report, key, what string, so StoreOp, nOpsIn
 		}
 	}
 	r.OK(key, rule, site, so.Op+" accessor has the canonical shape")
+}
+
+// zeroOrUnmarshalled: v is the load of a local that nothing writes except one Unmarshal call, which receives its address and is
+// executed exactly when the bytes the store operation `get` returned are not nil.
+func zeroOrUnmarshalled(p *Prog, fn *ssa.Function, v ssa.Value, get ssa.Instruction) bool {
+	u, ok := unspill(v).(*ssa.UnOp)
+	if !ok || u.Op != token.MUL {
+		return false
+	}
+	al, ok := u.X.(*ssa.Alloc)
+	if !ok || al.Referrers() == nil {
+		return false
+	}
+	getV, ok := get.(ssa.Value)
+	if !ok {
+		return false
+	}
+	var call ssa.CallInstruction
+	for _, rf := range *al.Referrers() {
+		switch x := rf.(type) {
+		case *ssa.DebugRef:
+		case *ssa.UnOp:
+			if x.Op != token.MUL {
+				return false
+			}
+		case *ssa.MakeInterface:
+			// &v boxed into the codec's interface parameter: its only use is the Unmarshal call
+			if x.Referrers() == nil {
+				return false
+			}
+			for _, r2 := range *x.Referrers() {
+				ci, isCall := r2.(ssa.CallInstruction)
+				if !isCall || !strings.Contains(calleeName(ci.Common()), "Unmarshal") || call != nil {
+					return false
+				}
+				call = ci
+			}
+		case ssa.CallInstruction:
+			if !strings.Contains(calleeName(x.Common()), "Unmarshal") || call != nil {
+				return false
+			}
+			call = x
+		default:
+			return false
+		}
+	}
+	if call == nil {
+		return false
+	}
+	in, ok := call.(ssa.Instruction)
+	if !ok {
+		return false
+	}
+	// decoded exactly when the bytes are there: the call's path condition is `bz != nil` …
+	o := NewOrigin(p, fn)
+	fa := NewFacts(p, fn, o)
+	notNil := fNot(cmpAtom("==", o.Of(getV), o.Of(ssa.NewConst(nil, getV.Type()))))
+	F := fa.At(in.Block())
+	if !Entails(F, notNil) {
+		return false
+	}
+	// … and nothing else (under bz != nil the call always runs): the block is reached whenever bz != nil holds after the read
+	return Entails(fAnd(fa.At(get.Block()), notNil), F)
 }
